@@ -1229,6 +1229,20 @@ func fsm4merge(c *Ctx, fn *ssa.Function) {
 								}
 							}
 						}
+						// `for k := range other.F { v := other.F[k]; ... }`
+						if lk, isLk := tail.(*ssa.Lookup); isLk && !lk.CommaOk && lk.Index == mu.Key {
+							if ls, lf, ok := structFieldSource(lk.X); ok && lf == fname && ls == ssa.Value(arg) {
+								if kx, isK := mu.Key.(*ssa.Extract); isK && kx.Index == 1 {
+									if nx, isNx := kx.Tuple.(*ssa.Next); isNx {
+										if rg, isRg := nx.Iter.(*ssa.Range); isRg {
+											if as, af, ok := structFieldSource(rg.X); ok && af == fname && as == ssa.Value(arg) {
+												good = true
+											}
+										}
+									}
+								}
+							}
+						}
 					}
 				}
 			}
